@@ -127,6 +127,21 @@ func (w *World) tamperXML(m *MsgSpec, sp *SPNode, s *Sent, doc string) string {
 				}
 				doc = serialize(root)
 			}
+		case "ref_uri":
+			if root, err := ParseXML([]byte(doc)); err == nil {
+				for _, ref := range root.FindAll(NSDS, "Reference") {
+					set := false
+					for i := range ref.Attrs {
+						if ref.Attrs[i].Local == "URI" {
+							ref.Attrs[i].Value, set = tp.S, true
+						}
+					}
+					if !set {
+						ref.Attrs = append(ref.Attrs, XAttr{Local: "URI", Value: tp.S})
+					}
+				}
+				doc = serialize(root)
+			}
 		case "drop_keyinfo":
 			if root, err := ParseXML([]byte(doc)); err == nil {
 				for _, k := range root.FindAll(NSDS, "KeyInfo") {
@@ -338,6 +353,15 @@ func (w *World) tamperRawQuery(m *MsgSpec, sp *SPNode, s *Sent, q string) string
 				ps = append(ps, rawParam{tp.S, ""})
 			}
 			w.fire("tamper_empty_param")
+		case "blank_sig":
+			var out []rawParam
+			for _, p := range ps {
+				if p.Key != "Signature" && (p.Key != "SigAlg" || tp.A == 1) {
+					out = append(out, p)
+				}
+			}
+			ps = append(out, rawParam{"Signature", tp.S})
+			w.fire("tamper_blank_sig")
 		case "sig_flip":
 			for i := range ps {
 				if ps[i].Key == "Signature" {
